@@ -110,6 +110,12 @@ pub fn make_qos(cfg: &ReaderCfg) -> QosPolicies {
 
 impl ReaderRig {
   pub fn new(cfgs: &[ReaderCfg]) -> Self {
+    let qs: Vec<QosPolicies> = cfgs.iter().map(make_qos).collect();
+    Self::new_with_qos(&qs)
+  }
+
+  /// one reader slot per given (requested) QoS
+  pub fn new_with_qos(cfgs: &[QosPolicies]) -> Self {
     net::capture_begin();
     let sh = shared();
     let own_prefix = sh.dp.guid_prefix();
@@ -123,7 +129,7 @@ impl ReaderRig {
 
     let mut slots = Vec::new();
     for (i, cfg) in cfgs.iter().enumerate() {
-      let qos = make_qos(cfg);
+      let qos = cfg.clone();
       let topic_cache = Arc::new(Mutex::new(TopicCache::new(
         TOPIC_NAME.to_string(),
         TypeDesc::new(TYPE_NAME.to_string()),
@@ -221,6 +227,19 @@ impl ReaderRig {
       max_samples: None,
     });
     self.reader_mut(slot).update_writer_proxy(proxy, &offered);
+  }
+
+  /// discovery announces a writer with arbitrary offered QoS
+  pub fn match_writer_with_qos(&mut self, slot: usize, writer: [u8; 16], offered: &QosPolicies, port: u16) {
+    let guid = guid_from_bytes(writer);
+    let loc = Locator::from(std::net::SocketAddr::from(([127, 0, 0, 1], port)));
+    let proxy = RtpsWriterProxy::new(guid, vec![loc], vec![], EntityId::UNKNOWN);
+    self.reader_mut(slot).update_writer_proxy(proxy, offered);
+  }
+
+  /// GUIDs of the writers currently matched with the reader of a slot
+  pub fn matched_writers(&mut self, slot: usize) -> Vec<[u8; 16]> {
+    self.reader_mut(slot).verif_matched_writers()
   }
 
   pub fn unmatch_writer(&mut self, slot: usize, writer: [u8; 16]) {
